@@ -136,7 +136,7 @@ def m_alt12(ctx, case):
         for tc in case["tcs"]:
             me = (tc << 51) | (rng.fill(3) << 48) | (v << 36) | rng.fill(36)
             f = bits.es_frame(rng.choice((17, 18)), rng.randrange(8), rng.fill(24), me)
-            hx = "%028X" % f
+            hx = bits.anypi(rng, "%028X" % f)
             if (v + tc) % 7 == 0:
                 hx = hx.lower()
             if 9 <= tc <= 18:
